@@ -25,6 +25,9 @@ def queries(ctx):
                           "functions": ["param_lookup", "lookup_override", "lookup_env", "lookup_file", "lookup_default", "set", "parsec_mca_param_lookup_int/_sizet/_string", "parsec_mca_param_lookup_source"],
                           "stubs": ["getenv (2-entry environment)", "parsec_show_help (counter)", "strtol/strtoll/strstr (CBMC mode)", "parsec_os_path (unreached)"],
                           "bounds": {"combinations": 72}}))
+    qs.append(Q("prec2_int", ["prec.c"] + LINK, defs=["T=0", "NSYN=2"], units=[U, "parsec/utils/mca_param_internal.h"], unwind=20, checks=["bounds", "pointer"], object_bits=14, timeout=1800,
+                info={"symbolic": ["override set", "PARSEC_MCA_own absent/'7'/'0x10'", "PARSEC_MCA_syn and PARSEC_MCA_syn2 each absent/present", "file value absent / own name / first synonym / second synonym", "override and default integer values"],
+                      "functions": ["param_lookup", "lookup_override", "lookup_env", "lookup_file", "lookup_default"], "stubs": ["getenv (3-entry environment)", "as prec_int"], "bounds": {"combinations": 96, "synonyms": 2}}))
     qs.append(Q("mca_repeated", ["mcacl.c", "repo:" + U, "repo:parsec/utils/parsec_environ.c", "repo:parsec/utils/argv.c"], defs=["K=3"], units=[UCL], unwind=40,
                 checks=["bounds", "pointer"], object_bits=14, timeout=1500,
                 info={"symbolic": ["parameter of each of 3 occurrences in {p,q}", "value of each occurrence in {v1,w}"],
@@ -36,6 +39,7 @@ def mutants(ctx):
     return [
         Mutant("env_before_override", U, "        if (lookup_override(&array[index], storage)) {\n            source = MCA_PARAM_SOURCE_OVERRIDE;\n        } else if (lookup_env(&array[index], storage)) {\n            source = MCA_PARAM_SOURCE_ENV;",
                "        if (lookup_env(&array[index], storage)) {\n            source = MCA_PARAM_SOURCE_ENV;\n        } else if (lookup_override(&array[index], storage)) {\n            source = MCA_PARAM_SOURCE_OVERRIDE;", queries=["prec_int"]),
+        Mutant("env_last_synonym_wins", U, "        for (item = PARSEC_LIST_ITERATOR_FIRST(param->mbp_synonyms);\n             NULL == env && PARSEC_LIST_ITERATOR_END(param->mbp_synonyms) != item;", "        for (item = PARSEC_LIST_ITERATOR_FIRST(param->mbp_synonyms);\n             PARSEC_LIST_ITERATOR_END(param->mbp_synonyms) != item;", queries=["prec2_int"]),
         Mutant("file_before_env", U, "        } else if (lookup_env(&array[index], storage)) {\n            source = MCA_PARAM_SOURCE_ENV;\n        } else if (lookup_file(&array[index], storage, source_file)) {\n            source = MCA_PARAM_SOURCE_FILE;",
                "        } else if (lookup_file(&array[index], storage, source_file)) {\n            source = MCA_PARAM_SOURCE_FILE;\n        } else if (lookup_env(&array[index], storage)) {\n            source = MCA_PARAM_SOURCE_ENV;", queries=["prec_int"]),
         Mutant("synonym_env_ignored", U, "            env = getenv(si->si_env_var_name);", "            env = NULL;", queries=["prec_int"]),
@@ -48,7 +52,7 @@ def mutants(ctx):
 CLAIMED = True
 MANIFEST = {
  "engine": "cbmc-src",
- "text": "Bounded model checking of the real lookup code of parsec/utils/mca_param.c (param_lookup, lookup_override/_env/_file/_default, set; included) on a parameter with one synonym, "
+ "text": "Bounded model checking of the real lookup code of parsec/utils/mca_param.c (param_lookup, lookup_override/_env/_file/_default, set; included) on a parameter with one synonym (and, for int parameters, with two synonyms: registration order decides), "
          "for int, size_t and string parameters and all 72 combinations of: override set, own-name environment variable (absent / decimal / hexadecimal text), synonym environment variable, "
          "parameter-file value (absent / under the own name / under the synonym's name), read-only: the value and parsec_mca_param_lookup_source follow "
          "override > environment (own name before synonym) > file > default, read-only parameters yield the default, the source file is reported for file values, repeated lookups agree, "
